@@ -106,10 +106,13 @@ class C16(Prop):
             if i % 11 != 0:  # every 11th: failure-free (validates the denotation against the real engine)
                 for st, tag in rng.sample(jobs, min(len(jobs), rng.choice([1, 1, 2, 2, 3, 4]))):
                     kind = rng.choice(["soft", "failstop"]) if (st, tag) in solo else "soft"
-                    ph = rng.choice(PHASES)
+                    # /join has one transfer step per input port: a loss during its transfer phase makes the sibling
+                    # transfer steps fail too and start concurrent recoveries of the SAME job (timing dependent, C19)
+                    phases = [p for p in PHASES if not (st == "/join" and kind == "failstop" and p == "transfer")]
+                    ph = rng.choice(phases)
                     faults.append([st, tag, ph, kind, rng.choice([1, 1, 2, 3])])
                     if rng.random() < 0.2:   # the same job also fails in another phase
-                        faults.append([st, tag, rng.choice([p for p in PHASES if p != ph]), kind, 1])
+                        faults.append([st, tag, rng.choice([p for p in phases if p != ph]), kind, 1])
             if any(f[3] == "failstop" for f in faults):
                 # a loss makes the recovery re-run the concurrent jobs side by side; if those fail too, several recoveries
                 # overlap and the outcome depends on timing (property C19): keep only the faults of jobs that run alone
